@@ -25,6 +25,7 @@ META = {
     "assumptions": ["constants inside a captured helper's body are C05's", "Enum members stay by name (documented)"],
     "floor_evaluations": {"quick": 1500, "thorough": 50000},
     "floor_nontrivial": {"quick": 400, "thorough": 15000},
+    "threads": 3,
     "anchors": ["func_adl/util_ast.py", "func_adl/object_stream.py"],
 }
 
